@@ -1,8 +1,10 @@
 """C10  Concurrent submitters of one job share a single execution.
 
 2-4 submitter PROCESSES (and a 2-thread variant) submit the same python task (body appends one line
-to a counter file with O_APPEND, fast or 50 ms) - or the same one-node workflow around it - into ONE
-cache root, with and without a pre-existing result, under the `debug` worker (job runs in the
+to a counter file with O_APPEND, fast or 50 ms) - or the same one-node workflow around it, or (shape
+"wf_shared") a DIFFERENT workflow each around the same node job - into ONE cache root, with the
+Submitter option clean_stale_locks not given / True / False,
+with and without a pre-existing result, under the `debug` worker (job runs in the
 submitter: Job.run, SoftFileLock) or a one-process `cf` pool per submitter (for the workflow shape:
 Job.run_async, PydraFileLock polling).  The interleaving is steered at named gates on the job path by generated
 ordering constraints (vlib/inject/conc10.py, vlib/gen/conc10.py).
@@ -33,15 +35,20 @@ DESIGN_REF = "5/C10, 4.3"
 TECHNIQUE = ("property-based testing over generated ordering constraints between concurrent submitter "
              "processes at named gates of the lock/check/run/save protocol; invariant oracle")
 RULE = (
-    "cases = (2-4 submitter processes or 2 threads, worker debug|cf, python task or one-node workflow, "
+    "cases = (2-4 submitter processes or 2 threads, worker debug|cf, python task or one-node workflow "
+    "or - shape wf_shared - a DIFFERENT workflow per submitter around one and the same node job (the "
+    "gates then follow that node job), Submitter option clean_stale_locks not given|True|False, "
     "pre-existing result or not, fast or 50 ms body, set of ordering constraints 'submitter i passes gate g only after submitter j passed / "
-    "arrived at gate h' over 12 gates: before_acquire, lock_wait, after_acquire, after_check, "
+    "arrived at gate h' over 13 gates: before_submit (the submitter has not yet created/called its Submitter: it "
+    "starts while another one is at work), before_acquire, lock_wait, after_acquire, after_check, "
     "after_populate, body_entered, body_left, before_save, after_save, before_release, after_release, returned). "
     "Non-trivial = at least two submitters passed 'after_acquire'/'lock_wait' at different times and at "
-    "least one ordering constraint was feasible (its wait was satisfied, not escaped); distinct = full case."
+    "least one ordering constraint was feasible (its wait was satisfied, not escaped); distinct = full case. "
+    "Batches: all shapes (wf_shared 1 in 6); wf_shared only, clean_stale_locks mostly False, scenarios "
+    "with a submitter held at before_submit until the owner is inside a drawn section preferred."
 )
 ASSUMPTIONS = [
-    "interleavings are STEERED at 12 gates of the job path (harness-side wrappers around "
+    "interleavings are STEERED at 13 gates of the submission/job path (harness-side wrappers around "
     "SoftFileLock.acquire/_acquire/release, Job._populate_filesystem, Job.result, result.save and the "
     "task body), they are not exhaustive; preemption between gates is left to the OS",
     "an ordering constraint that cannot be satisfied (the target finished without passing the gate, or "
@@ -51,6 +58,10 @@ ASSUMPTIONS = [
     "a submitter that has not returned after the watchdog (300 s) is counted as inconclusive: the "
     "statement does not speak about blocking (lock files of dead processes are C12's subject)",
     "the threads variant shares one interpreter: os.chdir in Job.run is process-global there",
+    "different workflows sharing a node job with stale-lock cleaning ON (clean_stale_locks=True, or not "
+    "given with the debug worker) are run and counted (undefined_by_statement:...) but not judged: the "
+    "Submitter docstring says not to set it where several workflows may run concurrently on one cache; "
+    "for one and the same submitted task/workflow the option is judged in every setting",
 ]
 SHARDS = {"quick": 16, "thorough": 16}
 WALL = {"quick": 240, "thorough": 1500}
@@ -59,11 +70,23 @@ WATCHDOG = 300.0
 
 
 # ------------------------------------------------------------------ one submitter (child side)
-def _task(case, d):
-    from vlib.tasks_conc import Counter, CounterWf
+def _task(case, d, who=-1):
+    from vlib.tasks_conc import Counter, CounterWf, CounterWfShared
 
-    cls = CounterWf if case.get("shape") == "wf" else Counter
-    return cls(x=case["x"], log=str(Path(d) / "counter.log"), delay_ms=int(case["delay_ms"]))
+    kw = dict(x=case["x"], log=str(Path(d) / "counter.log"), delay_ms=int(case["delay_ms"]))
+    if case.get("shape") == "wf_shared":  # a different workflow per submitter, one node job
+        return CounterWfShared(salt=int(who), **kw)
+    return (CounterWf if case.get("shape") == "wf" else Counter)(**kw)
+
+
+def _adopt(case):
+    return "node" if case.get("shape") == "wf_shared" else "main"
+
+
+def cleaning_on(case):
+    """Submitter.clean_stale_locks as documented: the given value, by default on for the debug worker"""
+    v = case.get("clean_stale_locks")
+    return case["worker"] == "debug" if v is None else bool(v)
 
 
 def _submit_once(case, d, ctl):
@@ -74,8 +97,13 @@ def _submit_once(case, d, ctl):
     out = dict(returned=False)
     try:
         kw = dict(n_procs=1) if case["worker"] == "cf" else {}
+        if case.get("clean_stale_locks") is not None:
+            kw["clean_stale_locks"] = bool(case["clean_stale_locks"])
+        task = _task(case, d, ctl.me if ctl is not None else -1)
+        if ctl is not None:
+            ctl.gate("before_submit")
         with Submitter(worker=case["worker"], cache_root=Path(d) / "cache", **kw) as sub:
-            res = sub(_task(case, d))
+            res = sub(task)
         out.update(returned=True, errored=bool(res.errored), outputs_none=res.outputs is None)
         if res.outputs is not None:
             o = res.outputs
@@ -104,7 +132,7 @@ def _wait_for(path, timeout):
 def _child_procs(case, d, i):
     gd = Path(d) / "gates"
     ctl = I10.GateCtl(gd, i, case["n"], case["constraints"], case.get("escape_s", 30.0),
-                      cache_root=Path(d) / "cache")
+                      cache_root=Path(d) / "cache", adopt=_adopt(case))
     I10.install()
     I10.set_current(ctl)
     _task(case, d)  # imports done before the start signal
@@ -261,6 +289,13 @@ def check_case(case):
         detail = dict(order=[f"{w}:{g}" for w, g in summ["order"]][:80], constraint_outcomes=summ["outcomes"],
                       submitters=outs)
         expected_execs = 0 if case.get("pre") else 1
+        if case.get("shape") == "wf_shared" and cleaning_on(case):
+            # documented (Submitter docstring): with clean_stale_locks on - the default of the debug
+            # worker - the lock of a node job that is older than this submitter's run start is removed,
+            # "don't set if ... multiple workflows are running concurrently": the statement's guarantee
+            # is not claimed for this configuration; the case is run and counted, not judged
+            obs["undefined"] = "stale_lock_cleaning_on_with_concurrent_workflows"
+            return []
         # ---- oracle
         if execs != expected_execs:
             sig = ("body-executed-more-than-once" if execs > 1 else
@@ -293,6 +328,9 @@ def check_case(case):
         files = sorted((d / "cache").glob("*/_result.pklz"))
         want_n = 2 if case.get("shape") == "wf" else 1  # the workflow and its only node
         main = [f for f in files if f.parent.name.startswith("workflow-")] if want_n == 2 else files
+        if case.get("shape") == "wf_shared":  # one workflow per submitter (+ the preparatory one), ONE node
+            want_n = n + (1 if case.get("pre") else 0) + 1
+            main = [f for f in files if not f.parent.name.startswith("workflow-")]
         if len(files) != want_n or len(main) != 1:
             recs.append(dict(signature="result-file-count-afterwards",
                              observed=[str(f.parent.name) for f in files],
@@ -334,6 +372,7 @@ def run(sh):
     def body(case):
         un = sh.run_case(case, nontrivial=False,
                          labels=[f"mode_{case['mode']}", f"worker_{case['worker']}", f"n_{case['n']}",
+                                 f"clean_stale_locks_{case.get('clean_stale_locks')}",
                                  f"shape_{case.get('shape', 'task')}",
                                  "pre_existing_result" if case["pre"] else "cold",
                                  f"scenario_{case['scenario']}", f"delay_{case['delay_ms']}ms"],
@@ -342,6 +381,11 @@ def run(sh):
         if obs.get("inconclusive"):
             sh.count("inconclusive_watchdog")
             return un
+        if obs.get("undefined"):
+            sh.count("undefined_by_statement:" + obs["undefined"])
+            return un
+        if any(c[1] == "before_submit" and c[3] != "before_submit" for c in case["constraints"]):
+            sh.count("cases_with_a_submitter_starting_while_another_is_at_work")
         for k, v in (obs.get("outcomes") or {}).items():
             sh.count(f"constraint_{k}", v)
             if k == "escaped-timeout":  # fallback escape: a slow (not a provably stuck) target
@@ -356,3 +400,5 @@ def run(sh):
         return un
 
     sh.given(G10.cases(max_n=3 if sh.quick else 4), body, sh.budget(48, 640), tag="gates")
+    # different workflows that share ONE node job, submitters that start while another is at work
+    sh.given(G10.shared_node_cases(max_n=3 if sh.quick else 4), body, sh.budget(16, 320), tag="shared")
